@@ -126,7 +126,7 @@ class Sess:
                 return
             if n > len(self.view):
                 st["view_grew"] += 1
-            self.view.extend([None, None] for _ in range(n - len(self.view)))
+            self.view.extend([None, None, "new"] for _ in range(n - len(self.view)))
         elif r.name == "EXPUNGE":
             st["replayed_expunge"] += 1
             if self.in_nonuid_fss:
@@ -152,7 +152,14 @@ class Sess:
                 if any(a >= b for a, b in zip(known, known[1:])):
                     w.viol(["C01", "C02"], "view-uids-not-ascending", f"{self.name}: {known}")
             if "FLAGS" in d:
-                cell[1] = set(canon_flag(f) for f in d["FLAGS"])
+                fl = set(canon_flag(f) for f in d["FLAGS"])
+                if len(cell) > 2 and cell[2] == "new" and cell[1] is None and not self.in_nonuid_fss and "UID" not in d:
+                    # first announcement of a message that arrived while we
+                    # had the mailbox selected
+                    st["new_msg_first_flags"] += 1
+                    if "\\Recent" not in fl:
+                        w.viol(["C13"], "new-message-announced-without-recent", f"{self.name}: {r.raw[:100]!r}")
+                cell[1] = fl
 
     def uids_known(self):
         return self.view is not None and all(c[0] is not None for c in self.view)
@@ -181,10 +188,11 @@ class World:
         self.flag_mode = self.opts.get("observer_flags", "fetch")
         self.tolerate = set(self.opts.get("tolerate", []))
         self.known_hits = Counter()
+        self.flags_used = set()
 
     # ------------------------------------------------------------ plumbing
-    def viol(self, props, kind, detail):
-        v = {"props": list(props), "kind": kind, "detail": str(detail)[:600], "step": len(self.steps)}
+    def viol(self, props, kind, detail, **data):
+        v = {"props": list(props), "kind": kind, "detail": str(detail)[:600], "step": len(self.steps), "data": data}
         self.violations.append(v)
         self.stats["viol:" + kind] += 1
         raise Stop()
@@ -426,7 +434,8 @@ class World:
         counted (known findings), anything else is a C04 violation."""
         extra = reported - model
         missing = model - reported
-        self.viol(["C04"], "flags-differ", f"{where}: reported {sorted(reported)} model {sorted(model)} (extra {sorted(extra)}, missing {sorted(missing)})")
+        self.viol(["C04"], "flags-differ", f"{where}: reported {sorted(reported)} model {sorted(model)} (extra {sorted(extra)}, missing {sorted(missing)})",
+                  extra=sorted(extra), missing=sorted(missing), flags_used=sorted(self.flags_used))
 
     # ---------------------------------------------------------- operations
     async def _cmd(self, ss, text, kind=None):
@@ -507,6 +516,7 @@ class World:
 
     async def op_append(self, ss, name, flags=None, date=None, extra_headers=(), body_lines=None):
         cid, msg = self.cids.make(self.rnd, extra_headers=extra_headers, body_lines=body_lines)
+        self.flags_used.update(flags or [])
         b = self.boxes.get(name)
         before = None
         r = await self._cmd(ss, b"APPEND " + wire_name(name).encode("latin-1") + (b" (" + " ".join(flags).encode() + b")" if flags is not None else b"")
@@ -574,6 +584,8 @@ class World:
                 r = await self._cmd(ss, f"FETCH {self.fmt_set([i + 1 for i, c in enumerate(ss.view) if c[0] is None])} (UID)", kind="FETCH") if ss.view and any(c[0] is None for c in ss.view) else r
 
     async def op_store(self, ss, spec, action, flags, silent=False, uid_mode=False):
+        if not spec:
+            return None
         b = self.boxes[ss.selected]
         await self.learn_uids(b)
         if not uid_mode:
@@ -585,6 +597,7 @@ class World:
         text = f"{'UID ' if uid_mode else ''}STORE {self.fmt_set(spec)} {verb} ({' '.join(flags)})"
         r = await self._cmd(ss, text, kind=None if uid_mode else "STORE")
         cf = [canon_flag(f) for f in flags]
+        self.flags_used.update(flags)
         if any(f == "\\Recent" for f in cf):
             if r.ok:
                 self.viol(["C04"], "store-recent-accepted", text)
@@ -863,7 +876,35 @@ class World:
         return new
 
     # ------------------------------------------------------------ namespace
+    def rebump_pending(self):
+        """A namespace command can touch a parent directory and thereby set
+        its mtime back to the real clock, i.e. *below* the value the delivery
+        agent gave it (the agent's bump runs ahead of the clock, see rig).
+        Keep the property's precondition ("the folder's modification time has
+        advanced") true for deliveries nobody has noticed yet."""
+        for b in self.boxes.values():
+            if not b.noselect and any(m.uid is None for m in b.msgs):
+                try:
+                    self.rig.bump_mtime("inbox" if b.name == "INBOX" else b.name)
+                except OSError:
+                    pass
+
     async def op_create(self, ss, name):
+        r = await self._op_create(ss, name)
+        self.rebump_pending()
+        return r
+
+    async def op_delete(self, ss, name):
+        r = await self._op_delete(ss, name)
+        self.rebump_pending()
+        return r
+
+    async def op_rename(self, ss, old, new):
+        r = await self._op_rename(ss, old, new)
+        self.rebump_pending()
+        return r
+
+    async def _op_create(self, ss, name):
         r = await self._cmd(ss, "CREATE " + wire_name(name))
         b = self.boxes.get(name)
         if r.ok:
@@ -883,7 +924,7 @@ class World:
             self.stats["creates"] += 1
         return r
 
-    async def op_delete(self, ss, name):
+    async def _op_delete(self, ss, name):
         b = self.boxes.get(name)
         r = await self._cmd(ss, "DELETE " + wire_name(name))
         if r.ok:
@@ -915,7 +956,7 @@ class World:
             b.subscribed = on
         return r
 
-    async def op_rename(self, ss, old, new):
+    async def _op_rename(self, ss, old, new):
         b = self.boxes.get(old)
         r = await self._cmd(ss, f"RENAME {wire_name(old)} {wire_name(new)}")
         if r.ok:
@@ -930,7 +971,9 @@ class World:
                     self.boxes[nm] = MBox(nm)
             if old == "INBOX":
                 nb = MBox(new)
-                nb.msgs = [M(None, m.cid, m.flags, m.idate) for m in b.msgs]
+                # new mailbox, new UIDs; the property set does not fix the
+                # internal date of messages re-homed by RENAME INBOX: learn it
+                nb.msgs = [M(None, m.cid, m.flags, None) for m in b.msgs]
                 self.boxes[new] = nb
                 b.msgs = []
                 self.stats["rename_inbox"] += 1
@@ -962,3 +1005,154 @@ class World:
                 m.flags.discard("\\Recent")
         self.note("== orderly restart ==")
         self.stats["restarts"] += 1
+
+
+    # ------------------------------------------------------------- disk (C13)
+    def disk_state(self, name):
+        """{key: cid} from the message files and the sequences as the stdlib
+        MH parser (an MH tool) reads them."""
+        import os
+
+        folder = "inbox" if name == "INBOX" else name
+        path = self.rig.maildir / folder
+        keys = {}
+        for fn in os.listdir(path):
+            if fn.isdigit():
+                with open(path / fn, "rb") as f:
+                    m = re.search(rb"(?im)^X-CID:\s*(\S+)", f.read(4096))
+                keys[int(fn)] = m.group(1).decode() if m else None
+        seqs, _ = self.rig.disk_sequences(folder)
+        return keys, seqs
+
+    def check_disk(self, name, where=""):
+        """.mh_sequences mentions no missing message and shows the flags the
+        sessions see."""
+        b = self.boxes.get(name)
+        if b is None or b.noselect:
+            return
+        try:
+            keys, seqs = self.disk_state(name)
+        except Exception as e:  # FormatError from the stdlib parser
+            self.viol(["C13", "C04"], "mh-sequences-unreadable", f"{name}: {e!r} {where}")
+        self.stats["disk_checks"] += 1
+        for sname, members in seqs.items():
+            ghost = sorted(k for k in members if k not in keys)
+            if ghost:
+                self.viol(["C13"], "mh-sequences-mention-missing-message", f"{name}: sequence {sname} lists {ghost}, files are {sorted(keys)} {where}", sequence=sname)
+        ks = sorted(keys)
+        if [keys[k] for k in ks] != [m.cid for m in b.msgs]:
+            self.viol(["C05", "C13"], "folder-files-differ-from-model", f"{name}: files {[(k, keys[k]) for k in ks]} model {[m.cid for m in b.msgs]} {where}")
+        for k, m in zip(ks, b.msgs):
+            if m.uid is None:
+                continue
+            want = set(f for f in m.flags if f != "\\Recent")
+            have = set()
+            if k not in seqs.get("unseen", set()):
+                have.add("\\Seen")
+            for sname, flag in (("replied", "\\Answered"), ("flagged", "\\Flagged"), ("Deleted", "\\Deleted"), ("Draft", "\\Draft")):
+                if k in seqs.get(sname, set()):
+                    have.add(flag)
+            for sname, members in seqs.items():
+                if sname in ("unseen", "Seen", "replied", "flagged", "Deleted", "Draft", "Recent"):
+                    continue
+                if k in members:
+                    have.add(sname)
+            if ("\\Seen" in have) != (k in seqs.get("Seen", set())) and "Seen" in seqs:
+                self.viol(["C04", "C13"], "seen-unseen-not-complementary-on-disk", f"{name} key {k}: unseen={k in seqs.get('unseen', set())} Seen={k in seqs.get('Seen', set())} {where}")
+            if have != want:
+                self.viol(["C13", "C04"], "mh-sequences-differ-from-flags", f"{name} key {k} ({m.cid}): .mh_sequences says {sorted(have)}, sessions see {sorted(want)} {where}",
+                          extra=sorted(have - want), missing=sorted(want - have), flags_used=sorted(self.flags_used))
+            self.stats["disk_flag_compares"] += 1
+
+    # ------------------------------------------------ seq/UID differential
+    async def op_probe_pairs(self, ss):
+        """FETCH 1:* and UID FETCH 1:* return the same (seq, uid, cid)."""
+        if ss.view is None or not ss.view:
+            return
+        b = self.boxes[ss.selected]
+        r1 = await self._cmd(ss, "FETCH 1:* (UID BODY.PEEK[HEADER.FIELDS (X-CID)])", kind="FETCH")
+        if r1.status == "NO":
+            return
+        r2 = await self._cmd(ss, "UID FETCH 1:* (UID BODY.PEEK[HEADER.FIELDS (X-CID)])")
+        t1 = sorted((n, d.get("UID"), cid_of_fetch(d)) for n, d in r1.fetches() if "UID" in d and any(k.startswith("BODY[") for k in d))
+        t2 = sorted((n, d.get("UID"), cid_of_fetch(d)) for n, d in r2.fetches() if "UID" in d and any(k.startswith("BODY[") for k in d))
+        self.stats["seq_uid_pair_probes"] += 1
+        if t1 != t2:
+            self.viol(["C03", "C15"], "seq-and-uid-forms-differ", f"{ss.name}: FETCH {t1} vs UID FETCH {t2}")
+        for n, u, c in t1:
+            mm = b.by_uid(u)
+            if mm is not None and mm.cid != c:
+                self.viol(["C03"], "uid-names-other-message", f"{b.name}: UID {u} is {mm.cid} in the model, server returned {c}")
+            self.reveal(b, u, c, "pair probe")
+
+    # --------------------------------------------------- Obs(server) (C12)
+    async def obs_snapshot(self):
+        o = self.obs
+        if o.writer.closed or o.wire_error:
+            self.obs = o = self.rig.session("O")
+        snap = {"list": {}, "lsub": set(), "boxes": {}}
+        r = await o.cmd('LIST "" *')
+        for x in r.untagged("LIST"):
+            nm = self._decode_name(x.data["name"])
+            attrs = set(a for a in x.data["attrs"] if a not in ("\\Marked", "\\Unmarked"))
+            snap["list"][nm] = sorted(attrs)
+        r = await o.cmd('LSUB "" *')
+        for x in r.untagged("LSUB"):
+            snap["lsub"].add(self._decode_name(x.data["name"]))
+        snap["lsub"] = sorted(snap["lsub"])
+        for nm, attrs in snap["list"].items():
+            if "\\Noselect" in attrs:
+                continue
+            r = await o.cmd(f"STATUS {wire_name(nm)} (MESSAGES UIDNEXT UIDVALIDITY UNSEEN)")
+            st = None
+            for x in r.untagged("STATUS"):
+                st = dict(x.data["atts"])
+            r = await o.cmd("EXAMINE " + wire_name(nm))
+            rows = []
+            if r.ok:
+                ex = [x.num for x in r.responses if x.kind == "num" and x.name == "EXISTS"]
+                if ex and ex[-1]:
+                    rf = await o.cmd("UID FETCH 1:* (UID FLAGS)")
+                    for n, d in sorted(rf.fetches()):
+                        rows.append((n, d.get("UID"), sorted(f for f in d.get("FLAGS", []) if canon_flag(f) != "\\Recent")))
+                await o.cmd("UNSELECT")
+            snap["boxes"][nm] = {"status": st, "rows": rows, "selectable": r.ok}
+        self.stats["obs_snapshots"] += 1
+        return snap
+
+
+    async def op_search_flag(self, ss, key):
+        """SEARCH <flag key> agrees with the model (C04 clause 4)."""
+        b = self.boxes[ss.selected]
+        await self.learn_uids(b)
+        r = await self._cmd(ss, "SEARCH " + key, kind="SEARCH")
+        if r.status == "NO" and "pending" in (r.tagged.text or "").lower():
+            self.stats["refused_pending_expunge"] += 1
+            return r
+        if not r.ok:
+            self.viol(["C14", "C06"], "search-refused", f"SEARCH {key} -> {r.brief()}")
+        got = set()
+        for x in r.untagged("SEARCH"):
+            got.update(x.data)
+        neg = key.startswith("UN")
+        k = key[2:] if neg else key
+        if k == "SEEN" and not neg or key == "UNSEEN":
+            flag = "\\Seen"
+        elif k.startswith("KEYWORD "):
+            flag = k.split(" ", 1)[1]
+        else:
+            flag = {"DELETED": "\\Deleted", "FLAGGED": "\\Flagged", "ANSWERED": "\\Answered", "DRAFT": "\\Draft", "RECENT": None}.get(k)
+        if flag is None:
+            self.stats["search_recent"] += 1
+            return r
+        if ss.nview() != len(b.msgs):
+            return r  # the session's numbering is behind; nothing to compare against
+        want = set()
+        for i, m in enumerate(b.msgs):
+            has = flag in m.flags
+            if has != neg:
+                want.add(i + 1)
+        self.stats["flag_search_compares"] += 1
+        if got != want:
+            self.viol(["C04", "C14"], "search-disagrees-with-flags", f"{ss.name}: SEARCH {key} -> {sorted(got)}, model {sorted(want)} {b.msgs}")
+        return r
